@@ -18,8 +18,21 @@ pub struct TrainSpec {
     pub mass_override: Option<f64>,
     pub length_override: Option<f64>,
     /// 0: 1 conv, 1: 1 BEL, 2: conv+BEL, 3: shipped 5-unit default, 4: three mixed units (Proportional),
-    /// 5: hybrid + conv (RESGreedy), 6: hybrid + BEL + conv (Proportional)
+    /// 5: hybrid + conv (RESGreedy), 6: hybrid + BEL + conv (Proportional),
+    /// 7: re-marshalled: built from two conventional units, then given conv + BEL + hybrid through the public set_loco_vec
     pub consist: u8,
+    /// drag area given per car through `TrainConfig.cd_area_vec` (4.0, 4.1, 4.2, ... m^2 along the train) instead of being
+    /// taken from the rail vehicles
+    #[serde(default)]
+    pub cd_vec: bool,
+}
+
+pub fn cd_area_vec(s: &TrainSpec) -> Option<Vec<f64>> {
+    if s.cd_vec {
+        Some((0..(s.n_loaded + s.n_empty)).map(|k| 4.0 + 0.1 * k as f64).collect())
+    } else {
+        None
+    }
 }
 
 pub fn manifest(loaded: bool, davis: bool) -> RailVehicle {
@@ -64,7 +77,7 @@ pub fn train_config(s: &TrainSpec) -> TrainConfig {
     if s.n_empty > 0 {
         n.insert("Manifest_Empty".into(), s.n_empty);
     }
-    TrainConfig::new(rvs, n, TrainType::Freight, s.length_override.map(|x| x * uc::M), s.mass_override.map(|x| x * uc::KG), None).expect("train config")
+    TrainConfig::new(rvs, n, TrainType::Freight, s.length_override.map(|x| x * uc::M), s.mass_override.map(|x| x * uc::KG), cd_area_vec(s).map(|v| v.into_iter().map(|x| x * uc::M2).collect())).expect("train config")
 }
 
 pub fn consist(kind: u8, save_interval: Option<usize>) -> Consist {
@@ -89,6 +102,15 @@ pub fn consist(kind: u8, save_interval: Option<usize>) -> Consist {
         }
         5 => Consist::new(vec![hyb(), conv()], save_interval, PowerDistributionControlType::RESGreedy(RESGreedy)),
         6 => Consist::new(vec![hyb(), bel(), conv()], save_interval, PowerDistributionControlType::Proportional(Proportional)),
+        7 => {
+            let mut c = Consist::new(vec![conv(), conv()], save_interval, PowerDistributionControlType::RESGreedy(RESGreedy));
+            // a consist whose make-up is changed after construction (caches filled for the old make-up)
+            let _ = altrios_core::traits::Mass::mass(&c);
+            let _ = c.get_energy_fuel();
+            c.set_loco_vec(vec![conv(), bel(), hyb()]);
+            c.set_save_interval(save_interval);
+            c
+        }
         _ => {
             let mut b = bel();
             if let Some(r) = b.reversible_energy_storage_mut() {
@@ -161,6 +183,10 @@ pub fn train_ref(s: &TrainSpec) -> TrainRef {
         t.cd_area += rv.cd_area.value * n as f64;
         t.axles += rv.axle_count as u32 * n;
         t.cars += n;
+    }
+    if let Some(v) = cd_area_vec(s) {
+        // documented: "the total drag area ... calculated from this vector is the sum of these coefficients"
+        t.cd_area = v.iter().sum();
     }
     t.towed_mass = s.mass_override.unwrap_or(sum_mass);
     if let Some(l) = s.length_override {
